@@ -77,7 +77,7 @@ Dimension sweep (tools/SWEEP_BRIEF.md): the same clauses along dimensions the fi
                     of the same shape with other content in between, held result), spm_filter (another GLM object of the same
                     directory with other bases, held result); the Meadows files are unchanged after loading
   environment       C20/fresh-interpreter: a batch of the oracles above in new interpreters with other PYTHONHASHSEEDs
-Classes that FAIL on the unchanged tree are registered behind `if False:  # pending triage: <class>` in tier_c:
+Classes that FAIL on the unchanged tree are registered behind `if False:  # pending triage: <class>` in tier_c:   [TRIAGED since: every class repaired in /repo, recorded as open finding, or dropped -- DESIGN.md 10.10]
   integer-typed-data (spm_filter keeps an integer dtype and truncates), single-run-spm-mat, condition-name-with-space,
   old-root-contains-func (relocate_file), two-stimuli-multi-participant (Meadows mat), impulse-events-duration-0 (design matrix).
 
